@@ -183,8 +183,11 @@ def sched_scenarios(run, menu_name, group, theorems, mode="th", reader_relaxed=F
                                 if st.get("P%d" % c["p"]) != "C%d" % c["b"] or ("O%d" % c["b"]) not in st:
                                     problem = "store_object(pid %d) returned success but the pid is not retrievable" % c["p"]
             if problem:
+                # a recorded finding covers exactly the failing final configurations the MODEL has for this scenario (proved to fail in
+                # props/C07.v): the same outcomes and the same files; anything else in the same scenario is a fresh violation
+                same_as_model = any((not f_["lin"] or not f_["retr"]) and f_["outcomes"] == outs and f_["state"] == st for f_ in finals)
                 sig = {"kind": "sched", "symptom": classify(calls, outs, st, r["status"]), "scenario": sid, "mode": mode,
-                       "calls": sorted(c["op"] for c in calls)}
+                       "calls": sorted(c["op"] for c in calls), "model_has_this_failure": "yes" if same_as_model else "no"}
                 run.violation(sig, "[%s] after [%s] under schedule %s: %s" % (s["calls"], s["setup"], ",".join(map(str, r["schedule"])), problem), replay)
             if kind == "witness" and d and concentrated[0] < 40 and not any(t[0] == "extra" for t in todo):
                 # the model's schedule no longer fits this scenario: concentrate the search here (many schedules with few preemptions)
